@@ -181,7 +181,18 @@ impl Store {
                 }
             }
         }
-        latest.into_values().map(decode).collect()
+        // In id order, which is the order the index hands a present-day read
+        // its candidates in. What a pattern enumerates first decides ties
+        // further down — a slot's `leading` candidate among equally supported
+        // ones — so the two paths have to agree on it, and the map's own order
+        // is the id's spelling: "P-10" before "P-9".
+        let mut rows: Vec<ElementVersionRow> = latest.into_values().collect();
+        rows.sort_by_key(|row| {
+            row.element
+                .parse::<ElementId>()
+                .map_or(u64::MAX, |id| id.seq)
+        });
+        rows.into_iter().map(decode).collect()
     }
 
     /// Resolves `AS OF TX :tx` to the Space sequence that transaction produced.
